@@ -12,7 +12,7 @@ variable {c : Cfg}
 theorem new_valid (s : List Nat) : Bytes.Valid (Bytes.new s) := by
   unfold Bytes.Valid Bytes.new; simp
 
-theorem allDig_range {r : Nat} {s : List Nat} (h : ∀ x ∈ s, IsDig r x) (i : Nat) : DigRange r s i s.length := by
+theorem allDS_range {k : Comp} {s : List Nat} (h : ∀ x ∈ s, DSk c k x) (i : Nat) : DSRange c k s i s.length := by
   intro n _ hn
   exact ⟨s[n], by simp [hn], h _ (List.getElem_mem hn)⟩
 
@@ -21,7 +21,7 @@ theorem minv_init (c : Cfg) (_cx : Ctx c) : MInv c 0 (u64Step c.feats c.mantissa
   simp
 
 /-- obligation (f) and the rest of the re-scan (integer and fraction iterators that never skip) -/
-theorem manyDigitsPhase_safe (cx : Ctx c) (hi : PeekTriv c .integer) (hf : PeekTriv c .fraction) (o : POpts)
+theorem manyDigitsPhase_safe (cx : Ctx c) (hi : Good c .integer) (hf : Good c .fraction) (o : POpts)
     (hdp : c.bytesContiguous = true ∨ o.dp ≠ c.fmt.digitSeparator) (neg : Bool) (b : Bytes) (ip : IntPart)
     (fp : FracPart) (ep : ExpPart) (e0 : Int) (endIdx : Nat) (hip : IntOk c b ip) (hfp : FracOk c ip.byte fp) :
     Safe (manyDigitsPhase c o neg ip fp ep (ip.nDigits + fp.nAfterDot) (u64Step c.feats c.mantissaRadix) e0 endIdx)
@@ -53,18 +53,18 @@ theorem manyDigitsPhase_safe (cx : Ctx c) (hi : PeekTriv c .integer) (hf : PeekT
   simp only
   split
   · next hnd =>
-    have hds := hip.allDig
+    have hds := hip.allDS
     refine Safe.bind_eq (skipZeros_safe cx .integer (Bytes.new ip.integerDigits) (new_valid _)) ?_
     rintro ⟨z1, int1⟩ hz1eq hadv1
     have hadv1 : Adv (Bytes.new ip.integerDigits) int1 := hadv1
     simp only
-    have hdig1 : DigRange c.mantissaRadix int1.slc int1.index int1.slc.length := by
-      rw [hadv1.slc]; exact allDig_range hds _
+    have hdig1 : DSRange c .integer int1.slc int1.index int1.slc.length := by
+      rw [hadv1.slc]; exact allDS_range hds _
     refine Safe.bind (parseU64Digits_safe cx .integer hi int1 0 _ hadv1.valid' (minv_init c cx) hdig1) ?_
     rintro ⟨int2, m2, step2⟩ ⟨hadv2, hinv2, hcnt2, hend2⟩
     have hadv2 : Adv int1 int2 := hadv2
     have hinv2 : MInv c m2 step2 := hinv2
-    have hcnt2 : step2 + (int2.index - int1.index) = u64Step c.feats c.mantissaRadix := hcnt2
+    have hcnt2 : PeekTriv c .integer → step2 + (int2.index - int1.index) = u64Step c.feats c.mantissaRadix := hcnt2
     have hend2 : step2 = 0 ∨ int2.index = int1.slc.length := hend2
     simp only
     split
@@ -91,6 +91,7 @@ theorem manyDigitsPhase_safe (cx : Ctx c) (hi : PeekTriv c .integer) (hf : PeekT
         | true =>
           -- counting argument: without a fraction more than `step` significant integer digits remain
           have hn0 := hfp.noFrac hfr
+          have hcnt2 := hcnt2 (peek_triv c cx .integer (Or.inl hbc))
           obtain ⟨L, _, hLn, hdg⟩ := hip.digits
           have hLn := hLn hbc
           have hnd2 := hip.nbc hbc
@@ -132,8 +133,8 @@ theorem manyDigitsPhase_safe (cx : Ctx c) (hi : PeekTriv c .integer) (hf : PeekT
             (∀ x, Safe (G x) (fun r => r.2 = endIdx)) → ∀ f : Bytes, Bytes.Valid f → f.slc = fd →
             Safe (parseU64Digits c .fraction f m2 step2 >>= G) (fun r => r.2 = endIdx) := by
           intro G hG f hfv hfs
-          have hdigf : DigRange c.mantissaRadix f.slc f.index f.slc.length := by
-            rw [hfs]; exact allDig_range hfd _
+          have hdigf : DSRange c .fraction f.slc f.index f.slc.length := by
+            rw [hfs]; exact allDS_range hfd _
           refine Safe.bind (parseU64Digits_safe cx .fraction hf f m2 step2 hfv hinv2 hdigf) ?_
           intro x _
           exact hG x
@@ -162,7 +163,7 @@ theorem manyDigitsPhase_safe (cx : Ctx c) (hi : PeekTriv c .integer) (hf : PeekT
           rfl
   · rfl
 
-theorem parseNumber_safe (cx : Ctx c) (hi : PeekTriv c .integer) (hf : PeekTriv c .fraction) (isPartial : Bool)
+theorem parseNumber_safe (cx : Ctx c) (hi : Good c .integer) (hf : Good c .fraction) (isPartial : Bool)
     (o : POpts) (ox : OCtx c o) (b : Bytes) (neg : Bool) (hb : b.index < b.slc.length) :
     Safe (parseNumber c isPartial o b neg) (fun r => r.2 ≤ b.slc.length) := by
   have hv : Bytes.Valid b := Nat.le_of_lt hb
@@ -174,7 +175,8 @@ theorem parseNumber_safe (cx : Ctx c) (hi : PeekTriv c .integer) (hf : PeekTriv 
   refine Safe.bind (fractionPhase_safe cx hf o ox.dpOk ip.byte ip.mantissa hip.advByte.valid') ?_
   intro fp hfp
   split
-  · simp only [hi ip.start, bind, Except.bind]
+  · obtain ⟨⟨v, b1⟩, hp⟩ := peek_ok cx .integer ip.start
+    simp only [hp, bind, Except.bind]
     split <;> exact Safe.err
   · refine Safe.bind (exponentPhase_safe cx _ fp.byte fp.fraction fp.exponent hfp.adv.valid' ?_) ?_
     · intro h
